@@ -14,6 +14,8 @@ Structural clauses decided, over every body of the five library crates:
  R6 no poisoning: interior-mutable analyzer state written on the per-input path is reset before each use (shared with C07-R1)
  R7 worker liveness: a service loop ends only on shutdown / queue disconnect / closed result channel, and the TCP
     worker's process_packet answers `stop` only when the result channel is closed - never because of a packet
+ (R7 also covers the capture loops process_sequential / process_parallel / process_with: they end only on source end, cancel signal or
+    closed receiver; R6 also checks that finished flows are removed under the key they are stored with - C07.R2)
 """
 import json
 import os
